@@ -41,6 +41,10 @@ func (d *Pegnetd) GradeS(ctx context.Context, block *factom.EBlock) (graderStake
 		for i := range entry.ExtIDs {
 			extids[i] = entry.ExtIDs[i]
 		}
+		// an entry without a staker id cannot be a valid SPR
+		if len(extids) < 2 {
+			continue
+		}
 		// allow only top 100 stake holders submit prices
 		stakerRCD := extids[1]
 		if d.Pegnet.IsIncludedTopPEGAddress(stakerRCD) {
